@@ -28,16 +28,22 @@ fn set_flags(f: &mut Full, target: &str, d: bool, w: bool, t: bool, mode: u64) -
     match target {
         "pair1" | "pair2" => {
             let pair = if target == "pair1" { f.pair1.clone() } else { f.pair2.clone() };
+            // mode 2 sends the switches together with new fees in ONE message
+            let fees = if mode % 3 == 2 { Some(pool_fee(dec_atomics(ONE / 1000), dec_atomics(ONE / 500), dec_atomics(0))) } else { None };
             let r = f.w.exec(&owner, &f.hub.pool_factory.clone(), &white_whale_std::pool_network::factory::ExecuteMsg::UpdatePairConfig {
-                pair_addr: pair.to_string(), owner: None, fee_collector_addr: None, pool_fees: None,
+                pair_addr: pair.to_string(), owner: None, fee_collector_addr: None, pool_fees: fees,
                 feature_toggle: Some(FeatureToggle { withdrawals_enabled: w, deposits_enabled: d, swaps_enabled: t }) }, &[]);
             if !r.is_ok() { return r; }
             f.w.exec(&owner, &f.hub.pool_factory.clone(), &white_whale_std::pool_network::factory::ExecuteMsg::UpdatePairConfig {
                 pair_addr: pair.to_string(), owner: None, fee_collector_addr: Some(collector), pool_fees: None, feature_toggle: None }, &[])
         }
         "trio" => {
+            // modes 1 and 2 send the switches together with another setting in ONE message (an amplification ramp, new fees)
+            let height = f.w.app.block_info().height;
+            let ramp = if mode % 3 == 1 { Some(white_whale_std::pool_network::trio::RampAmp { future_a: 100 + (mode % 7) * 10 + if d { 1 } else { 0 }, future_block: height + 10_000 }) } else { None };
+            let fees = if mode % 3 == 2 { Some(trio_fee(ONE / 1000, ONE / 500, 0)) } else { None };
             let r = f.w.exec(&owner, &f.hub.pool_factory.clone(), &white_whale_std::pool_network::factory::ExecuteMsg::UpdateTrioConfig {
-                trio_addr: f.trio.to_string(), owner: None, fee_collector_addr: None, pool_fees: None, amp_factor: None,
+                trio_addr: f.trio.to_string(), owner: None, fee_collector_addr: None, pool_fees: fees, amp_factor: ramp,
                 feature_toggle: Some(white_whale_std::pool_network::trio::FeatureToggle { withdrawals_enabled: w, deposits_enabled: d, swaps_enabled: t }) }, &[]);
             if !r.is_ok() { return r; }
             f.w.exec(&owner, &f.hub.pool_factory.clone(), &white_whale_std::pool_network::factory::ExecuteMsg::UpdateTrioConfig {
